@@ -350,7 +350,7 @@ fn faults_and_chunks(f: &File, fi: usize, ctx: &Ctx, rep: &mut Report) {
 
 pub fn run(ctx: &Ctx) -> Report {
     let types: Vec<i32> = if cfg!(miri) { vec![1, 25] } else { TYPES.to_vec() };
-    let per_type = if cfg!(miri) { 1 } else { ctx.pick(2, 12) };
+    let per_type = if cfg!(miri) { 1 } else { ctx.pick(4, 16) };
     let items: Vec<(i32, usize)> = types.iter().flat_map(|&t| (0..per_type).map(move |k| (t, k))).collect();
     let mut rep = par(ctx, items.len(), |idx, rep| {
         let (t, k) = items[idx];
